@@ -41,15 +41,86 @@ class Result:
         return self.status == "unsat"
 
 
-def to_smt2(prelude, ob) -> str:
+def _consts_and_funcs(t):
+    from .symexec import symbols_of
+
+    out = set(symbols_of(t))
+    seen = set()
+    stack = [t]
+    while stack:
+        x = stack.pop()
+        if x.get_id() in seen:
+            continue
+        seen.add(x.get_id())
+        if z3.is_quantifier(x):
+            stack.append(x.body())
+            continue
+        if z3.is_const(x) and x.decl().kind() == z3.Z3_OP_UNINTERPRETED:
+            out.add("c:" + x.decl().name())
+        stack.extend(x.children())
+    return out
+
+
+_CF_CACHE = {}
+
+
+def consts_and_funcs(t):
+    k = t.get_id()
+    if k not in _CF_CACHE:
+        _CF_CACHE[k] = (_consts_and_funcs(t), t)
+    return _CF_CACHE[k][0]
+
+
+def slice_pc_strict(ob):
+    """Tight slice: only those conjuncts whose function symbols all occur in the goal already (plain arithmetic facts
+       about the goal's constants, and facts about the very functions the goal mentions)."""
+    gs = consts_and_funcs(ob.goal)
+    gfun = set(x for x in gs if not x.startswith("c:"))
+    pcs = []
+    for p in ob.pc:
+        ps = consts_and_funcs(p)
+        pf = set(x for x in ps if not x.startswith("c:"))
+        if pf <= gfun and (ps & gs) and not z3.is_quantifier(p):
+            pcs.append(p)
+    return pcs, []
+
+
+def slice_pc(ob):
+    """Goal-directed slice of the path condition: conjuncts (transitively) sharing uninterpreted symbols with the goal.
+       Dropping assumptions only weakens the query, so `unsat` of the slice is a valid discharge."""
+    syms = set(consts_and_funcs(ob.goal))
+    items = [(p, consts_and_funcs(p)) for p in list(ob.pc) + list(ob.axioms)]
+    chosen = [False] * len(items)
+    changed = True
+    while changed:
+        changed = False
+        for i, (p, ps) in enumerate(items):
+            if not chosen[i] and (ps & syms):
+                chosen[i] = True
+                if not z3.is_quantifier(p):
+                    new = ps - syms
+                    if new:
+                        syms |= new
+                        changed = True
+    pcs = [p for (p, _), c in zip(items[:len(ob.pc)], chosen[:len(ob.pc)]) if c]
+    axs = [p for (p, _), c in zip(items[len(ob.pc):], chosen[len(ob.pc):]) if c]
+    return pcs, axs
+
+
+def to_smt2(prelude, ob, sliced=False) -> str:
     s = z3.Solver()
+    pc, axioms = (list(ob.pc), list(ob.axioms))
+    if sliced == "strict":
+        pc, axioms = slice_pc_strict(ob)
+    elif sliced:
+        pc, axioms = slice_pc(ob)
     if hasattr(prelude, "relevant_prelude"):
-        prelude = prelude.relevant_prelude(list(ob.axioms) + list(ob.pc) + [ob.goal])
+        prelude = prelude.relevant_prelude(axioms + pc + [ob.goal])
     for a in prelude:
         s.add(a)
-    for a in ob.axioms:
+    for a in axioms:
         s.add(a)
-    for p in ob.pc:
+    for p in pc:
         s.add(p)
     s.add(z3.Not(ob.goal))
     return s.to_smt2()
@@ -93,13 +164,19 @@ def solve_file(path: str, timeout: float, backends: List[str]) -> Tuple[str, str
 
 
 def discharge(prelude: List[Any], obligations: List[Any], timeout: float = 10.0, jobs: int = 16,
-              backends: Optional[List[str]] = None, tag: str = "run") -> List[Result]:
+              backends: Optional[List[str]] = None, tag: str = "run", drop_portfolio: bool = True) -> List[Result]:
+    """Rounds: (1) strict goal-directed slice, (2) symbol-closure slice, (3) full query on the back-end portfolio,
+       (4) for the stubborn ones a portfolio of weakened queries (one prelude axiom dropped).  Slices and weakened
+       variants only drop assumptions, so their `unsat` is a valid discharge; `sat` is only believed for the full query."""
     backends = backends or ["z3", "cvc5", "z3-4.8"]
     outdir = os.path.join(CACHE, tag)
+    if os.path.isdir(outdir):
+        import shutil
+
+        shutil.rmtree(outdir, ignore_errors=True)
     os.makedirs(outdir, exist_ok=True)
     results: List[Result] = []
-    work = []
-    seen: Dict[str, Result] = {}
+    open_items = []
     for idx, ob in enumerate(obligations):
         r = Result(ob.name)
         r.func, r.kind, r.info, r.path = ob.func, ob.kind, ob.info, ob.path
@@ -108,36 +185,83 @@ def discharge(prelude: List[Any], obligations: List[Any], timeout: float = 10.0,
         if z3.is_true(goal):
             r.status, r.backend = "unsat", "trivial"
             continue
-        text = to_smt2(prelude, ob)
-        h = hashlib.sha256(text.encode()).hexdigest()[:20]
-        if h in seen:
-            r.status = None  # filled from the twin afterwards
-            r.detail = h
-            continue
-        seen[h] = r
-        path = os.path.join(outdir, "%s.smt2" % h)
+        open_items.append((idx, r, ob))
+
+    def write(idx, text, suffix):
+        path = os.path.join(outdir, "%05d%s.smt2" % (idx, suffix))
         with open(path, "w") as f:
             f.write(text)
-        r.smt2_path = path
-        r.detail = h
-        work.append((r, path))
+        return path
 
-    def job(item):
-        r, path = item
-        st, be, t, detail, attempts = solve_file(path, timeout, backends)
-        r.status, r.backend, r.time, r.attempts = st, be, t, attempts
-        if st != "unsat":
-            r.detail = detail
-        return r
+    def run_round(items, mode, per_timeout, bes, label):
+        work = []
+        for idx, r, ob in items:
+            text = to_smt2(prelude, ob, sliced=mode)
+            work.append((idx, r, ob, write(idx, text, {"strict": ".strict", True: ".sliced", False: ""}[mode])))
 
-    if work:
+        def job(item):
+            idx, r, ob, path = item
+            st, be, t, detail, attempts = solve_file(path, per_timeout, bes)
+            r.attempts = list(r.attempts) + attempts
+            r.time += t
+            if st == "unsat":
+                r.status, r.backend = "unsat", be + label
+            elif mode is False:
+                r.status, r.backend, r.detail = st, be, detail
+                r.smt2_path = path
+            return r
+
+        if work:
+            with ThreadPoolExecutor(max_workers=jobs) as ex:
+                list(ex.map(job, work))
+        return [(idx, r, ob) for idx, r, ob, _ in work if r.status != "unsat"]
+
+    vac_items = [it for it in open_items if it[1].kind == "vacuity"]
+    open_items = [it for it in open_items if it[1].kind != "vacuity"]
+    # vacuity guards (goal False): only a contradiction (`unsat`) matters; one quick full query each
+    run_round(vac_items, False, min(timeout, 2.0), backends[:1], "")
+    if os.environ.get("PYVC_NO_SLICING") == "1":
+        remaining = open_items
+    else:
+        remaining = run_round(open_items, "strict", min(timeout, 3.0), backends[:1], "(strict-slice)")
+        remaining = run_round(remaining, True, min(timeout, 5.0), backends[:1], "(sliced)")
+    remaining = run_round(remaining, False, timeout, backends, "")
+    for idx, r, ob in open_items:
+        if not r.smt2_path:
+            for suf in ("", ".sliced", ".strict"):
+                pth = os.path.join(outdir, "%05d%s.smt2" % (idx, suf))
+                if os.path.exists(pth):
+                    r.smt2_path = pth
+                    break
+    stubborn = [(idx, r, ob) for idx, r, ob in remaining if r.status not in ("unsat", "sat")]
+    if stubborn and drop_portfolio:
+        variants = []
+        for idx, r, ob in stubborn:
+            pre = prelude.relevant_prelude(list(ob.axioms) + list(ob.pc) + [ob.goal]) \
+                if hasattr(prelude, "relevant_prelude") else list(prelude)
+            for k in range(len(pre)):
+                sv = z3.Solver()
+                for j, a in enumerate(pre):
+                    if j != k:
+                        sv.add(a)
+                for a in ob.axioms:
+                    sv.add(a)
+                for pz in ob.pc:
+                    sv.add(pz)
+                sv.add(z3.Not(ob.goal))
+                variants.append((r, write(idx, sv.to_smt2(), ".drop%d" % k), k))
+
+        def vjob(item):
+            r, vp, k = item
+            if r.status == "unsat":
+                return
+            st, be, t, detail, attempts = solve_file(vp, min(timeout, 5.0), ["z3", "cvc5"])
+            if st == "unsat" and r.status != "unsat":
+                r.status, r.backend = "unsat", be + "(weakened: one prelude axiom dropped)"
+                r.attempts = list(r.attempts) + attempts
+
         with ThreadPoolExecutor(max_workers=jobs) as ex:
-            list(ex.map(job, work))
-    for r in results:
-        if r.status is None:
-            twin = seen[r.detail]
-            r.status, r.backend, r.time, r.smt2_path = twin.status, twin.backend + "(dup)", 0.0, twin.smt2_path
-            r.attempts = twin.attempts
+            list(ex.map(vjob, variants))
     return results
 
 
